@@ -72,6 +72,40 @@ CHECKS.update({
     },
 })
 
+CHECKS.update({
+    'C09': {
+        'level': 'exploration', 'design_ref': 'DESIGN.md section 4 (C09)',
+        'technique': 'exhaustive enumeration of generated engine packages, graph compared with a reference computed from the description',
+        'text': 'Every DAG on <=3 (thorough 4) algorithms x kind assignment x reference granularity pattern x package '
+        'sharing (incl. one package with prefix-colliding names a, ab, abc) x optional feedback reference x both '
+        'factory styles, plus hand-picked deep shapes, is written as a real package, scanned by pl.scan and built by '
+        'pl.dag.Construct; node sets, edge sets (value / state-vector / algorithm / task level), one object per '
+        'tag, parents, ancestry (transitive closure) and the feedback map are compared with the description.',
+        'note': 'graphviz rendering (pydot.Dot.write_svg) is stubbed; self loops created by trimming inside one package '
+        'are ignored; node level is not checked (sort heuristic only).',
+    },
+    'C15': {
+        'level': 'exploration', 'design_ref': 'DESIGN.md section 4 (C15)',
+        'technique': 'exhaustive enumeration of version pairs/triples and of persisted-version histories through the real store and build',
+        'text': '(a) all 729 ordered pairs and 19683 triples of versions in {0,1,2}^3: six operators and newer() against '
+        'tuple order, trichotomy, antisymmetry, transitivity. (b) engines x single-element bumps x current snapshot x '
+        'per-algorithm persisted history {none, base, bumped, both} x target sets x recording path (pipeline side / '
+        'worker side over the wire) through real pl.version.record, db.versions, pl.version.current and '
+        'schedule.build: exactly the owners of a non-persisted version are queued, for exactly the known targets.',
+        'note': 'shelve back end; one element bumped per software snapshot.',
+    },
+    'C16': {
+        'level': 'exploration', 'design_ref': 'DESIGN.md section 4 (C16)',
+        'technique': 'exhaustive enumeration of generated valid and single-rule-broken packages against the expected verdict',
+        'text': 'Generated packages on disk in both factory styles: every non-empty mix of factory kinds (15) x 3 reference '
+        'patterns and every rule-conforming DAG engine must be accepted by tools.compliant._verify and then build '
+        'and schedule without error; each mix with exactly one of 28 breakage kinds at every applicable algorithm / '
+        'factory position must be rejected; the exit status of python -m dawgie.tools.compliant is compared with the '
+        'in-process verdict for a representative of every breakage kind and every valid mix.',
+        'note': 'any exception inside a rule counts as a rejection (as the gate does); the git/merge steps of tools.submit are not run.',
+    },
+})
+
 _PENDING = 'check not built yet in this session (planned in DESIGN.md); will move to checks when it exists'
 NOT_APPLICABLE = {
     pid: _PENDING
